@@ -382,13 +382,30 @@ func (w *W) walkLoop(f *frame, fi *fnInfo, l *loopInfo) {
 			w.loopIters[name] = k
 		}
 		if k >= U {
-			f.t.truncated = Or(f.t.truncated, g)
-			if old, ok := w.loopsTruncated[name]; ok {
-				w.loopsTruncated[name] = Or(old, g)
-			} else {
-				w.loopsTruncated[name] = g
+			// beyond the bound: walk only the header up to its first operation (a goroutine blocked at the
+			// loop head, e.g. in `for x := range ch`, is not a truncated state)
+			before := f.t.truncated
+			f.iter = mkKey(saved, h, k, -3)
+			f.t.cutAfterOp = true
+			w.execBlock(f, fi, l.header)
+			tg := False
+			if f.t.cutAfterOp {
+				f.t.cutAfterOp = false
 			}
-			f.in[h] = nil
+			for b := range l.blocks {
+				for _, e := range f.in[b] {
+					tg = Or(tg, e.g)
+				}
+				f.in[b] = nil
+			}
+			f.t.truncated = Or(f.t.truncated, tg)
+			now := f.t.truncated
+			delta := And(now, Not(before))
+			if old, ok := w.loopsTruncated[name]; ok {
+				w.loopsTruncated[name] = Or(old, delta)
+			} else {
+				w.loopsTruncated[name] = delta
+			}
 			break
 		}
 		f.iter = mkKey(saved, h, k, -3)
@@ -620,10 +637,11 @@ func (w *W) instr(t *Thread, f *frame, ins ssa.Instruction, key int, g *Term) *T
 	case *ssa.MakeSlice:
 		ln, cp := w.val(f, x.Len).(*Term), w.val(f, x.Cap).(*Term)
 		ln, cp = Sext(ln, 64), Sext(cp, 64)
-		mx, okc := maxConst(cp)
+		mx, bad, okc := sizeBound(cp)
 		if !okc {
 			panic("cannot encode: make([]T, n) with non-enumerable n at " + w.pos(x.Pos()) + " n=" + cp.String() + diagLeaves(cp))
 		}
+		g = w.rtPanic(f, g, Or(bad, Slt(cp, ln), Slt(ln, BV(64, 0))), "makeslice: len or cap out of range", x.Pos())
 		o, fresh := w.newObj(fmt.Sprintf("S%d:%d", t.id, key), x.Type().Underlying().(*types.Slice).Elem(), false)
 		if fresh {
 			o.n = int(mx)
@@ -1077,7 +1095,33 @@ func diagLeaves(t *Term) string {
 	m := map[int]*Term{}
 	badLeaves(t, m)
 	s := " non-constant leaves:"
+	var culprit func(t *Term, depth int) *Term
+	culprit = func(t *Term, depth int) *Term {
+		if _, ok := enumLeaves(t); ok {
+			return nil
+		}
+		for _, a := range t.args {
+			if t.op == OIte && a == t.args[0] {
+				continue
+			}
+			if c := culprit(a, depth+1); c != nil {
+				return c
+			}
+		}
+		return t
+	}
+	if c := culprit(t, 0); c != nil {
+		s += " CULPRIT: " + c.str(3)
+		for _, a := range c.args {
+			ls, ok := enumLeaves(a)
+			s += fmt.Sprintf(" {ok=%v n=%d}", ok, len(ls.vals))
+		}
+	}
 	for _, x := range m {
+		for _, a := range x.args {
+			ls, ok := enumLeaves(a)
+			s += fmt.Sprintf(" {arg leaves ok=%v n=%d vals=%v}", ok, len(ls.vals), ls.vals)
+		}
 		s += " " + x.str(3)
 		if x.op == OAdd || x.op == OSlt {
 			mm := map[int]*Term{}
